@@ -5,7 +5,9 @@
 (*   value : Int      n > 0  leaf n (immutable, no identity)               *)
 (*                    n < 0  reference to heap[-n]                         *)
 (*   object: [k, fn, items]                                                *)
-(*     k     in {"config","partial","list","tuple","dict","ntuple"}        *)
+(*     k     in {"config","partial","list","tuple","dict","ntuple",        *)
+(*               "tagged"}  (tagged = a stand-alone TaggedValue: one item,  *)
+(*               key 1, its value, tg = its tags)                          *)
 (*     fn    callable index for Buildables (0 for containers)              *)
 (*     items sequence of [key, val, tg]; key = parameter slot for          *)
 (*           Buildables (ascending = signature order), position for        *)
@@ -94,7 +96,16 @@ AscSeqs(n, lo, m) ==
   IF n = 0 THEN {<<>>}
   ELSE UNION {{<<k>> \o s : s \in AscSeqs(n - 1, k + 1, m)} : k \in lo..m}
 
+\* references a Buildable argument may hold: a TaggedValue passed as an argument is
+\* expanded into (value, tags) by fiddle, so it never survives there
+NotTagged(h, v) == ~(IsRef(v) /\ h[-v].k = "tagged")
+
 NewObjectsT(h, kd, maxItems, nleaves, nkeys, tagChoices, unsetTagged) ==
+  IF kd.k = "tagged"
+  THEN {Obj("tagged", 0, <<ItemT(1, v, t)>>) :
+          v \in Values(h, nleaves) \cup (IF unsetTagged THEN {0} ELSE {}),
+          t \in (tagChoices \ {0}) \cup (IF tagChoices \ {0} = {} THEN {1} ELSE {})}
+  ELSE
   UNION {
     LET keyseqs == IF IsBuildableKind(kd.k) THEN AscSeqs(n, 1, kd.slots)
                    ELSE IF kd.k = "dict" THEN AscSeqs(n, 1, nkeys)
@@ -103,8 +114,9 @@ NewObjectsT(h, kd, maxItems, nleaves, nkeys, tagChoices, unsetTagged) ==
         tgs == IF IsBuildableKind(kd.k) THEN tagChoices ELSE {0}
     IN {Obj(kd.k, kd.fn, [j \in 1..n |-> ItemT(ks[j], vs[j], ts[j])])
           : ks \in keyseqs,
-            vs \in [1..n -> vals],
-            ts \in {t \in [1..n -> tgs] : \A j \in 1..n : TRUE}}
+            vs \in {w \in [1..n -> vals] :
+                      IsBuildableKind(kd.k) => \A j \in 1..n : NotTagged(h, w[j])},
+            ts \in [1..n -> tgs]}
     : n \in (IF kd.k = "ntuple" THEN {kd.slots} ELSE 0..maxItems)}
 
 NewObjects(h, kd, maxItems, nleaves, nkeys) ==
